@@ -3,6 +3,8 @@ package main
 import (
 	"fmt"
 	"go/ast"
+	"go/constant"
+	"go/token"
 	"go/types"
 	"strings"
 
@@ -174,7 +176,7 @@ func graphWritersRule(r *Report, p *Prog, e *Effect, rule string, roots []*ssa.F
 func checkC06(r *Report) {
 	p := loadResolve("", true)
 	pathTrusted(r)
-	r.Explain = "Path rules on the SSA control-flow graph of the npm resolver. C06.a LOOP-ACCOUNT: in the loop that asks the client for matching versions of each requirement, every path through one iteration ends in (*Graph).AddEdge, (*Graph).AddError or a return, so each non-dev, non-peer requirement becomes an edge, a node error, or aborts the resolution. C06.b PAIR: each (*Graph).AddNode in that loop is followed on every continuing path by an AddEdge whose target is the id just created; C06.c GRAPH-WRITERS: nothing reachable from Resolve writes Graph.Nodes/Edges except Graph's own append-only Add* methods; with the root as base case every node is reachable from the root by induction on insertion order. C06.d KNOWN-EMPTY-KEY (deny-list): no slot/alias table of the npm resolver is looked up with a variable on a branch where that variable is known to be the empty string (such a lookup can never hit, so a reservation that protects Node's walk-up lookup would be silently ignored). Not decided: that the edge target satisfies the requirement, version choice, and the hoisting/shadowing logic as a whole."
+	r.Explain = "Path rules on the SSA control-flow graph of the npm resolver. C06.a LOOP-ACCOUNT: in the loop that asks the client for matching versions of each requirement, every path through one iteration ends in (*Graph).AddEdge, (*Graph).AddError or a return, so each non-dev, non-peer requirement becomes an edge, a node error, or aborts the resolution. C06.b PAIR: each (*Graph).AddNode in that loop is followed on every continuing path by an AddEdge whose target is the id just created; C06.c GRAPH-WRITERS: nothing reachable from Resolve writes Graph.Nodes/Edges except Graph's own append-only Add* methods; with the root as base case every node is reachable from the root by induction on insertion order. C06.d KNOWN-EMPTY-KEY (deny-list): no slot/alias table of the npm resolver is looked up with a variable on a branch where that variable is known to be the empty string (such a lookup can never hit, so a reservation that protects Node's walk-up lookup would be silently ignored). C06.e DEV-INERT: in regularImports (the filter that decides which requirements of a version enter that loop) a dev requirement is never emitted, so it must not influence what is emitted either: every write to the filter's suppression tables and every append to its result happens on the not-dev side of a HasAttr(dep.Dev) test of the same iteration; otherwise a dev entry could suppress a regular requirement that then gets neither an edge nor an error. Not decided: that the edge target satisfies the requirement, version choice, and the hoisting/shadowing logic as a whole."
 	fn := p.lookupFn("(*resolve/npm.resolver).Resolve")
 	if fn == nil {
 		r.bad("C06.a/LOOP-ACCOUNT", "npm Resolve", "", "function (*resolve/npm.resolver).Resolve not found")
@@ -191,13 +193,14 @@ func checkC06(r *Report) {
 	e := runEffect(p)
 	graphWritersRule(r, p, e, "C06.c/GRAPH-WRITERS", []*ssa.Function{fn})
 	knownEmptyKeyRule(r, p, "C06.d/KNOWN-EMPTY-KEY", "resolve/npm")
+	devInertRule(r, p, "C06.e/DEV-INERT")
 	r.Stats["loop_blocks"] = len(l.body)
 }
 
 func checkC07(r *Report) {
 	p := loadResolve("", true)
 	pathTrusted(r)
-	r.Explain = "Path rules on the SSA control-flow graph of the Maven resolver's traversal. C07.a LOOP-ACCOUNT on the loop over a version's imports that calls findMatch: every path of an iteration ends in AddEdge, AddError or return, except two documented skips attached to the true edge of their guard: the artifact is excluded on this path (isExcluded) and scope == \"provided\" in multi-registry mode. C07.b PAIR: the AddNode in the loop is followed by an AddEdge to that node. C07.c GRAPH-WRITERS as for npm. C07.d RETRY-BOUND: the retry loop on incompatible requirements compares a counter that is incremented once per iteration with the constant maxRetries. C07.e NODE-REGISTERED: every table that records the id of a node added in the loop on some path records it on every continuing path, so the de-duplication tables that enforce one version per artifact stay in step with the graph. C07.f INHERITED-SET: the exclusion set stored in a traversal node is shared by reference with the nodes that inherit it and is therefore never written in place (a new node's set is built in the dependency's own freshly parsed map). Not decided: nearest-wins, range satisfaction, management override."
+	r.Explain = "Path rules on the SSA control-flow graph of the Maven resolver's traversal. C07.a LOOP-ACCOUNT on the loop over a version's imports that calls findMatch: every path of an iteration ends in AddEdge, AddError or return, except two documented skips attached to the true edge of their guard: the artifact is excluded on this path (isExcluded) and scope == \"provided\" in multi-registry mode. C07.b PAIR: the AddNode in the loop is followed by an AddEdge to that node. C07.c GRAPH-WRITERS as for npm. C07.d RETRY-BOUND: the retry loop on incompatible requirements compares a counter that is incremented once per iteration with the constant maxRetries. C07.e NODE-REGISTERED: every table that records the id of a node added in the loop on some path records it on every continuing path, so the de-duplication tables that enforce one version per artifact stay in step with the graph. C07.f INHERITED-SET: the exclusion set stored in a traversal node is shared by reference with the nodes that inherit it and is therefore never written in place (a new node's set is built in the dependency's own freshly parsed map). C07.g INCOMPATIBLE-FIRST: inside the loop every AddEdge/AddNode for the match is behind the test 'this artifact is already resolved' (which raises the incompatible-requirements retry), except the edge to an exactly known artifact+version. Not decided: nearest-wins, range satisfaction, management override."
 	fn := p.lookupFn("(*resolve/maven.resolver).resolve")
 	if fn == nil {
 		r.bad("C07.a/LOOP-ACCOUNT", "maven resolve", "", "function (*resolve/maven.resolver).resolve not found")
@@ -244,6 +247,104 @@ func checkC07(r *Report) {
 	loopBoundRule(r, p, "C07.d/RETRY-BOUND", root, "maxRetries")
 	nodeRegisteredRule(r, p, "C07.e/NODE-REGISTERED", fn, l)
 	inheritedSetRule(r, p, e, "C07.f/INHERITED-SET")
+	incompatibleFirstRule(r, p, "C07.g/INCOMPATIBLE-FIRST", fn, l)
+}
+
+// incompatibleFirstRule: inside the dependency loop, the test "this artifact is
+// already resolved (to something else)" — a lookup in a map[packageKey]bool
+// whose hit returns the incompatible-requirements error — precedes every place
+// that adds an edge or a node for the match, except the edge added when the
+// exact artifact+version is already known (a lookup hit in the
+// map[versionKey]NodeID table).
+func incompatibleFirstRule(r *Report, p *Prog, rule string, fn *ssa.Function, l *loop) {
+	var guard *ssa.BasicBlock
+	var guardBad *ssa.BasicBlock
+	lookupOn := func(c ssa.Value, typeSuffix string) bool {
+		return condDerives(c, 0, func(v ssa.Value) bool {
+			var lk *ssa.Lookup
+			switch x := v.(type) {
+			case *ssa.Lookup:
+				lk = x
+			case *ssa.Extract:
+				lk, _ = x.Tuple.(*ssa.Lookup)
+			}
+			return lk != nil && strings.HasSuffix(lk.X.Type().String(), typeSuffix)
+		})
+	}
+	for b := range l.body {
+		ifi, ok := b.Instrs[len(b.Instrs)-1].(*ssa.If)
+		if !ok || !lookupOn(ifi.Cond, "map[deps.dev/util/resolve/maven.packageKey]bool") {
+			continue
+		}
+		// the hit side must leave with the incompatible error
+		hit := b.Succs[0]
+		if !l.body[hit] || exitAborts(hit, l) || abortsWithin(hit, l) {
+			guard, guardBad = b, hit
+		}
+	}
+	key := fnKey(fn) + ": already-resolved test precedes edges and nodes"
+	if guard == nil {
+		r.bad(rule, key, p.pos(fn.Pos()), "the test that an artifact is already resolved (and the incompatible-requirements error it raises) was not found in the dependency loop")
+		return
+	}
+	n := 0
+	okAll := true
+	for b := range l.body {
+		for _, in := range b.Instrs {
+			name := staticCalleeName(in)
+			if name != "(*resolve.Graph).AddEdge" && name != "(*resolve.Graph).AddNode" {
+				continue
+			}
+			n++
+			if guardedBy(guard, guardBad, b) {
+				continue
+			}
+			// exempt: the edge to an exactly known artifact+version (hit in the versionKey table)
+			exempt := false
+			for d := range l.body {
+				ifi, ok := d.Instrs[len(d.Instrs)-1].(*ssa.If)
+				if ok && lookupOn(ifi.Cond, "map[deps.dev/util/resolve/maven.versionKey]deps.dev/util/resolve.NodeID") && d.Succs[0].Dominates(b) && len(d.Succs[0].Preds) == 1 {
+					exempt = true
+				}
+			}
+			if exempt {
+				continue
+			}
+			okAll = false
+			r.bad(rule, key+" / "+name, p.pos(in.Pos()), "an edge or node for the match is added on a path that has not yet tested whether the artifact is already resolved to another version: a second version of the artifact enters the graph instead of the incompatible-requirements retry")
+		}
+	}
+	if okAll {
+		r.ok(rule, key, blockPos(p, guard), fmt.Sprintf("all %d AddEdge/AddNode calls of the loop are behind the test (or behind an exact artifact+version hit)", n))
+	}
+	r.floor(rule, "AddEdge/AddNode calls in the dependency loop", n, 3)
+}
+
+// abortsWithin: every path from b stays in straight-line/branching code and ends in an error return.
+func abortsWithin(b *ssa.BasicBlock, l *loop) bool {
+	seen := map[*ssa.BasicBlock]bool{}
+	stack := []*ssa.BasicBlock{b}
+	for len(stack) > 0 {
+		x := stack[len(stack)-1]
+		stack = stack[:len(stack)-1]
+		if seen[x] {
+			continue
+		}
+		seen[x] = true
+		if len(seen) > 32 || x == l.header {
+			return false
+		}
+		if ret, ok := x.Instrs[len(x.Instrs)-1].(*ssa.Return); ok {
+			if isSuccessReturn(ret) {
+				return false
+			}
+			continue
+		}
+		for _, s := range x.Succs {
+			stack = append(stack, s)
+		}
+	}
+	return true
 }
 
 // nodeRegisteredRule: every map that records the id returned by an AddNode of
@@ -343,4 +444,89 @@ func knownEmptyKeyRule(r *Report, p *Prog, rule string, pkgRel string) {
 		r.ok(rule, "package "+pkgRel, "", fmt.Sprintf("none of the %d map lookups keyed by a variable sits on a branch where that variable is known to be empty", n))
 	}
 	r.floor(rule, "map lookups keyed by a variable in "+pkgRel, n, 5)
+}
+
+// devInertRule: see checkC06. The rule is about regularImports only: its
+// output is the exact list of requirements the resolution loop accounts for.
+func devInertRule(r *Report, p *Prog, rule string) {
+	fn := p.lookupFn("(*resolve/npm.resolver).regularImports")
+	if fn == nil {
+		r.bad(rule, "npm regularImports", "", "function (*resolve/npm.resolver).regularImports not found: anchor lost")
+		return
+	}
+	var devVal constant.Value
+	if dp := p.Pkgs[modPrefix+"resolve/dep"]; dp != nil {
+		if c, ok := dp.Types.Scope().Lookup("Dev").(*types.Const); ok {
+			devVal = c.Val()
+		}
+	}
+	if devVal == nil {
+		r.bad(rule, "dep.Dev", "", "constant resolve/dep.Dev not found: anchor lost")
+		return
+	}
+	type guard struct{ b, bad *ssa.BasicBlock }
+	var guards []guard
+	for _, b := range fn.Blocks {
+		ifi, ok := b.Instrs[len(b.Instrs)-1].(*ssa.If)
+		if !ok {
+			continue
+		}
+		cond, neg := ifi.Cond, false
+		if u, ok := cond.(*ssa.UnOp); ok && u.Op == token.NOT {
+			cond, neg = u.X, true
+		}
+		c, ok := cond.(*ssa.Call)
+		if !ok || staticCalleeName(c) != "(*resolve/dep.Type).HasAttr" {
+			continue
+		}
+		k, ok := c.Call.Args[len(c.Call.Args)-1].(*ssa.Const)
+		if !ok || k.Value == nil || !constant.Compare(k.Value, token.EQL, devVal) {
+			continue
+		}
+		bad := b.Succs[0]
+		if neg {
+			bad = b.Succs[1]
+		}
+		guards = append(guards, guard{b, bad})
+	}
+	n := 0
+	check := func(in ssa.Instruction, what string) {
+		n++
+		key := fnKey(fn) + ": " + what
+		for _, g := range guards {
+			if guardedBy(g.b, g.bad, in.Block()) {
+				r.ok(rule, key, p.pos(in.Pos()), "on the not-dev side of the HasAttr(dep.Dev) test at "+blockPos(p, g.b))
+				return
+			}
+		}
+		r.bad(rule, key, p.pos(in.Pos()), "reached by a dev requirement: a dev entry is never emitted by this filter, so letting it write the filter's tables or result lets it suppress a regular requirement that then has neither an edge nor an error")
+	}
+	seen := map[string]int{}
+	for _, b := range fn.Blocks {
+		for _, in := range b.Instrs {
+			switch x := in.(type) {
+			case *ssa.MapUpdate:
+				name := "table"
+				if mm, ok := x.Map.(*ssa.MakeMap); ok {
+					if refs := mm.Referrers(); refs != nil {
+						for _, rf := range *refs {
+							if dr, ok := rf.(*ssa.DebugRef); ok {
+								name = types.ExprString(dr.Expr)
+							}
+						}
+					}
+					_ = mm
+				}
+				seen["w:"+name]++
+				check(in, fmt.Sprintf("write to %s #%d", name, seen["w:"+name]))
+			case *ssa.Call:
+				if bi, ok := x.Call.Value.(*ssa.Builtin); ok && bi.Name() == "append" {
+					seen["append"]++
+					check(in, fmt.Sprintf("append to result #%d", seen["append"]))
+				}
+			}
+		}
+	}
+	r.floor(rule, "HasAttr(dep.Dev) tests in regularImports", len(guards), 2)
+	r.floor(rule, "table writes and result appends in regularImports", n, 3)
 }
